@@ -1,8 +1,12 @@
 (* Extraction of the clap_lex models (C13, C14).  ExtrOcamlBasic only; no Extract Constant. *)
 From Coq Require Import Extraction ExtrOcamlBasic.
-From ClapModel Require Import Base.Bytes Lex.OsStrExtModel Lex.CursorModel.
+From ClapModel Require Import Base.Bytes Lex.OsStrExtModel Lex.CursorModel Lex.LexModel.
 Extraction Language OCaml.
 Separate Extraction
   OsStrExtModel.find OsStrExtModel.contains OsStrExtModel.strip_prefix Bytes.starts_with
   OsStrExtModel.split OsStrExtModel.split_once
-  CursorModel.crun CursorModel.cinit.
+  CursorModel.crun CursorModel.cinit
+  LexModel.is_empty LexModel.is_stdio LexModel.is_escape LexModel.is_negative_number
+  LexModel.to_long LexModel.is_long LexModel.to_short LexModel.is_short LexModel.to_value_ok
+  LexModel.sf_new LexModel.sf_run LexModel.sf_next_value_os LexModel.sf_drain LexModel.drain_fuel
+  LexModel.short_of_arg.
